@@ -30,15 +30,17 @@ def lex_identifier(s: "Scanner") -> None:
 
 
 def lex_quoted_string(s: "Scanner") -> None:
-    c = s.next()
-    while c != "'":
-        if c == "\n" or c is None:
+    while True:
+        # look before consuming: passing the newline would move the reported position to the next line.
+        if s.pos >= len(s.input) or s.peek() == "\n":
             raise ScannerException("Unterminated String", s.get_position())
+
+        c = s.next()
+        if c == "'":
+            break
 
         if c == "\\" and s.peek() == "'":
             s.next()
-
-        c = s.next()
 
     s.emit(TokenType.QUOTED_STRING)
 
